@@ -36,7 +36,7 @@ ASSUMPTIONS = [
     "get_paths / Part.segments / pretty_segments / add_segments are documented to store Segment objects on the part",
 ]
 COMPONENTS = {"real": ["partitura.score: add_segments, get_paths, Path, ScoreVariant.create_variant_part, unfold_part_maximal/minimal, iter_unfolded_parts, new_part_from_path", "utils.generic.ReplaceRefMixin", "utils.music.update_note_ids_after_unfolding"], "stub": ["none (no I/O in this world)"]}
-PROBES = ("unfold_by_alignment", "result_edited", "unfold_of_an_unfolded_part", "repeat_moved_between_unfoldings", "score_vs_part", "same_call_twice_with_other_between", "tie_across_segment_boundary", "slur_across_segment_boundary", "volta", "volta3", "navigation", "two_repeats", "no_structure", "variant_count_checked", "partial_generator")
+PROBES = ("original_looked_at_first", "unfold_by_alignment", "result_edited", "unfold_of_an_unfolded_part", "repeat_moved_between_unfoldings", "score_vs_part", "same_call_twice_with_other_between", "tie_across_segment_boundary", "slur_across_segment_boundary", "volta", "volta3", "navigation", "two_repeats", "no_structure", "variant_count_checked", "partial_generator")
 
 
 # ----------------------------------------------------------------------------
@@ -96,11 +96,11 @@ def generate(seed, tier, cfg):
         }
         asc = {"id": None, "parts": [p], "groups": None}
         ops = [{"k": "max", "update_ids": True, "ignore_leaps": True}, {"k": "min"}, {"k": "max", "update_ids": False, "ignore_leaps": True}]
-        return {"workload": asc, "ops": ops, "knobs": {"via_score": k.random() < 0.3}}
+        return {"workload": asc, "ops": ops, "knobs": {"via_score": k.random() < 0.3, "looked_at": k.random() < 0.4}}
     if p.get("repeat_shape") in ("simple", "simple2") and k.random() < 0.5:
         # a history: unfold, move a repeat start one measure earlier (in place), rebuild the segments, unfold again
         ops += [{"k": "max", "update_ids": True, "ignore_leaps": True}, {"k": "move_repeat"}, {"k": "max", "update_ids": True, "ignore_leaps": True}, {"k": "iter", "take": 99, "update_ids": False}]
-    return {"workload": asc, "ops": ops, "knobs": {"via_score": k.random() < 0.3}}
+    return {"workload": asc, "ops": ops, "knobs": {"via_score": k.random() < 0.3, "looked_at": k.random() < 0.4}}
 
 
 # ----------------------------------------------------------------------------
@@ -353,6 +353,12 @@ def check_part(res, ap, orig_part, rp, opname, policy, update_ids, orig_objs):
                     if id(v) in orig_objs or (id(v) not in inside and attr in ("start", "end", "tie_prev", "tie_next", "grace_prev", "grace_next", "start_note", "end_note")):
                         res.violation("U3-references", opname, "%s.%s of a copied object points outside the copy (%s)" % (type(o).__name__, attr, "into the original" if id(v) in orig_objs else "to an object not registered in the result"), site=type(o).__name__ + "." + attr)
                         return
+                # derived references follow the stored ones: the main note of a grace note is a note of the copy
+                if isinstance(o, S.GraceNote):
+                    mn = o.main_note
+                    if mn is not None and id(mn) not in inside:
+                        res.violation("U3-references", opname, "main_note of copied grace note %s is %s, %s" % (o.id, getattr(mn, "id", None), "a note of the original" if id(mn) in orig_objs else "not registered in the result"), site="GraceNote.main_note")
+                        return
                 # links come in pairs and join neighbours in time: a tie (grace chain) that was cut at a segment
                 # boundary is cut on both sides, one that was kept joins the copy of the same visit
                 for fwd, back in (("tie_next", "tie_prev"), ("grace_next", "grace_prev")):
@@ -408,6 +414,19 @@ def execute(case, keep_log=False):
             res.probe("slur_across_segment_boundary")
     score = build.build_score(asc, with_pages=True)
     part = score.parts[0]
+    if case["knobs"].get("looked_at"):
+        # the part has been looked at before it is unfolded (printed, derived properties of its objects read)
+        res.probe("original_looked_at_first")
+        try:
+            part.pretty()
+        except Exception:
+            pass
+        for o in part.iter_all(S.GenericNote, include_subclasses=True):
+            for attr in ("main_note", "duration_tied", "end_tied", "symbolic_duration", "midi_pitch", "alter_sign"):
+                try:
+                    getattr(o, attr, None)
+                except Exception:
+                    pass
     snapper = FP.Snapshotter()
     snap = [snapper.snapshot(score)]
     orig_objs = set()
@@ -561,10 +580,29 @@ def execute(case, keep_log=False):
                 a, b, c = op["flags"]
                 ps = S.get_paths(part, no_repeats=a, all_repeats=b, ignore_leap_info=c)
                 outcome = [list(p.path) for p in ps]
+                import re as _re
+
+                for p_ in ps[:4]:
+                    rows = [tuple(float(x) for x in m_.groups()) for m_ in _re.finditer(r"segment\s+(-?[0-9.]+) - (-?[0-9.]+)\s+duration:\s+(-?[0-9.]+)", p_.pretty(part))]
+                    bad_rows = [r_ for r_ in rows if abs((r_[1] - r_[0]) - r_[2]) > 1e-6]
+                    if bad_rows:
+                        res.violation("U1-length", "paths", "the listing of a path gives a segment from beat %s to beat %s the duration %s" % bad_rows[0], site="listing:duration")
+                        break
             elif k == "segments":
                 outcome = [[s.id, list(s.to)] for s in part.segments]
             elif k == "pretty_segments":
-                outcome = FP.digest(S.pretty_segments(part))[:12]
+                txt = S.pretty_segments(part)
+                outcome = FP.digest(txt)[:12]
+                # the listing says where each segment starts and ends (in beats) and how long it is: the length is the
+                # difference, and the segments tile the part
+                import re as _re
+
+                rows = [tuple(float(x) for x in m_.groups()) for m_ in _re.finditer(r"segment\s+(-?[0-9.]+) - (-?[0-9.]+)\s+duration:\s+(-?[0-9.]+)", txt)]
+                bad_rows = [r_ for r_ in rows if abs((r_[1] - r_[0]) - r_[2]) > 1e-6]
+                if bad_rows:
+                    res.violation("U1-length", "pretty_segments", "the segment listing gives a segment from beat %s to beat %s the duration %s" % bad_rows[0], site="listing:duration")
+                elif rows and any(abs(a_[1] - b_[0]) > 1e-6 for a_, b_ in zip(rows, rows[1:])):
+                    res.violation("U1-length", "pretty_segments", "the segments of the listing do not follow one another: %s" % (rows[:4],), site="listing:tiling")
             elif k == "force_new":
                 S.add_segments(part, force_new=True)
                 outcome = "ok"
